@@ -41,7 +41,15 @@ fn driver_cross_check(rep: &Report) {
             continue;
         }
         let loopfam = matches!(j, Jcc::Loop | Jcc::Loope | Jcc::Loopne);
-        for flags in [0u16, ZF, CF, SF, OF, SF | OF, ZF | CF, PF, 0x0ED5 & !TF] {
+        // thorough: all 64 combinations of the six status flags (plus the all-set word), quick: nine words
+        let flag_words: Vec<u16> = if rep.thorough() {
+            let mut v: Vec<u16> = (0..64u16).map(|m| (if m & 1 != 0 { CF } else { 0 }) | (if m & 2 != 0 { PF } else { 0 }) | (if m & 4 != 0 { AF } else { 0 }) | (if m & 8 != 0 { ZF } else { 0 }) | (if m & 16 != 0 { SF } else { 0 }) | (if m & 32 != 0 { OF } else { 0 })).collect();
+            v.push(0x0ED5 & !TF);
+            v
+        } else {
+            vec![0u16, ZF, CF, SF, OF, SF | OF, ZF | CF, PF, 0x0ED5 & !TF]
+        };
+        for flags in flag_words {
             for cx in [0u16, 1, 2, 4] {
                 if !loopfam && j != Jcc::Jcxz && cx != 4 {
                     continue;
@@ -120,7 +128,9 @@ fn driver_cross_check(rep: &Report) {
         items.push(mov16(R16::SI, 77));
         let p = Program { data: vec![], items };
         let text = p.render_plain().text;
-        crate::c08::check_program_sig(rep, &p, &text, Some(format!("jcc-driver|{}|{}|{:04x}|{}", j.name(), placement, flags, cx)), true, ["jump-target-behind", "jump-target-ahead", "jump-targets-itself"][placement], 300, 2000, &format!("jcc-driver:{}", j.name()));
+        // only the nine quick flag words are part of the seed-independent core (the fingerprint of the recorded JLE finding)
+        let core_word = [0u16, ZF, CF, SF, OF, SF | OF, ZF | CF, PF, 0x0ED5 & !TF].contains(&flags);
+        crate::c08::check_program_sig(rep, &p, &text, if core_word { Some(format!("jcc-driver|{}|{}|{:04x}|{}", j.name(), placement, flags, cx)) } else { None }, true, ["jump-target-behind", "jump-target-ahead", "jump-targets-itself"][placement], 300, 2000, &format!("jcc-driver:{}", j.name()));
     });
     rep.count("conditions x placements x flag/CX cases run as programs through the real driver", n as u64);
     far_placement(rep);
